@@ -8,6 +8,8 @@ import Fx.Props.C10
 import Fx.Lemmas.LogBound
 import Fx.Lemmas.Total
 import Fx.Lemmas.EmitPlans
+import Fx.Lemmas.Depth
+import Fx.Lemmas.Fuel
 namespace Fx.C09
 open Fx
 
@@ -90,6 +92,28 @@ theorem C09_total_success (a : Ast) (p : Plans) (hp : p.SizeExact' = true) (hs :
   rw [h] at ht
   exact ht.2
 
+/-- **C09 for specifications without recursive types: the constant does not depend on the input.**  When no declaration can
+    reach itself (decidable `Plans.acyclic`: the computed ranking decreases along every reference, direct, optional or array),
+    `p.depth name` — computed from the plans alone (Lemmas/Depth) — is a budget at which the decoder of `name` answers on
+    EVERY buffer; the answer is the same for every larger budget, and all the memory it requests, on success or on failure,
+    adds up to at most `p.depth name × bytes present`.  (For recursive types the factor is the nesting the input itself
+    spells out — `C09_total_bounded` — and for array-recursive ones the total is quadratic: finding K11.) -/
+theorem C09_total_acyclic (a : Ast) (p : Plans) (hp : p.SizeExact' = true) (hs : p.elemsSure = true) (hac : p.acyclic = true)
+    (name : String) (c : Cur) :
+    ∃ r, r ≠ .outOfFuel ∧ (∀ f, p.depth name ≤ f → evalImpl a p f name c = r) ∧
+      ∀ l', r.log? = some l' → ∃ new, l' = c.log ++ new ∧ wt new ≤ p.depth name * c.remaining := by
+  have hno := depth_suffices a p hac name (p.depth name) (Nat.le_refl _) c
+  refine ⟨evalImpl a p (p.depth name) name c, hno, fun f hf => evalImpl_fuel_mono a p name c _ f hf hno, fun l' hl => ?_⟩
+  exact C09_total_bounded a p hp hs (p.depth name) name c l' hl
+
+/-- non-vacuity and a negative: `struct in { opaque o<>; unsigned n; }; struct s { in xs<>; in *opt; in arr[2]; }` has no
+    recursive type and nesting budget 14 for `s`; the K11 type `struct t { t kids<>; }` is (rightly) not acyclic -/
+example :
+    let p : Plans := ⟨[⟨"in", true, .struct [.plain "o" (.varBytes none), .plain "n" (.one (.prim .u32))]⟩,
+                       ⟨"s", true, .struct [.plain "xs" (.varArr "in" true none), .optional "opt" "in",
+                                            .plain "arr" (.fixedArr 2 (.tryFrom "in"))]⟩], []⟩
+    p.acyclic = true ∧ p.depth "in" = 5 ∧ p.depth "s" = 14 := by decide
+
 /-- K11 in the model (a test, not the unbounded claim): the plans of `struct t { t kids<>; }` on 16, 32 and 64 bytes of `ff`
     request 24, 112 and 480 units — the total grows quadratically (2k(k-1) for 4k bytes) while every single request stays
     below the bytes present -/
@@ -98,6 +122,6 @@ def k11Plans : Plans :=
 
 example : ((evalImpl ⟨[], [], []⟩ k11Plans 40 "t" ⟨0, List.replicate 16 255, []⟩).log?.map wt) = some 24 := by decide
 example : ((evalImpl ⟨[], [], []⟩ k11Plans 40 "t" ⟨0, List.replicate 32 255, []⟩).log?.map wt) = some 112 := by decide
-example : k11Plans.SizeExact' = true ∧ k11Plans.elemsSure = true := by decide
+example : k11Plans.SizeExact' = true ∧ k11Plans.elemsSure = true ∧ k11Plans.acyclic = false := by decide
 
 end Fx.C09
